@@ -119,9 +119,13 @@ EjOK(r) ==
 \* homogeneity, duplication theorem, degenerate forms R_F(x,y,0), R_C = R_F(x,y,y), R_D = R_J(x,y,z,z)).
 \* ax: floor(log2) of the arguments (-9999: zero or absent); sp: their exponent range (used by the known-finding
 \* matcher: the 3-argument R_G and R_J lose accuracy for widely spread arguments, notes/C15.md).
+\* RG2_LogSpread (named rule): the 2-argument R_G (Carlson 2.36-2.39, an AGM with a subtracted sum) loses about one
+\* unit per 3 binades of the ratio of its arguments; full accuracy is demanded up to a ratio of 2^64 (every k'^2 a
+\* double modulus can produce), beyond that the tolerance grows with the exponent range.
+CTol(r) == IF r.fn = 4 /\ r.sp > 64 THEN ETol + r.sp ELSE ETol
 RcOK(r) ==
   /\ r.v[1] = 1
-  /\ Good(r.rq, ETol)
+  /\ Good(r.rq, CTol(r))
   /\ \A i \in DOMAIN r.st : GoodOrSkipped(r.st[i], 2 * ETol)
 \* lattice line: documented domain, and the degenerate values stated exactly
 RcLatticeOK(r) ==
